@@ -188,6 +188,13 @@ func (core *JApiCore) setCurrentDirective(keyword string, keywordCoords directiv
 		return core.japiError(fmt.Sprintf("%s %q", jerr.UnknownDirective, keyword), keywordCoords.Begin())
 	}
 
+	// Banned directives are refused as soon as they are met: MACRO and PASTE (and
+	// everything inside a macro which is never pasted) do not live long enough
+	// to be refused when the catalog is built.
+	if _, ok := core.bannedDirectives[de]; ok {
+		return core.japiError(fmt.Sprintf("%s (%s)", jerr.DirectiveNotAllowed, de.String()), keywordCoords.Begin())
+	}
+
 	d := directive.NewWithCallStack(de, keywordCoords, core.scannersStack.ToDirectiveIncludeTracer())
 	d.Keyword = keyword
 
